@@ -18,7 +18,9 @@ package main
 //            presents the case's certificate kind; observable: did the client's query get the upstream's answer.
 //   role=ls: a tls/https/quic listener with the case's options; a client presenting the case's certificate kind
 //            (or none); observable: was the query served.
-//   case:   <id> role=<up|ls> proto=<tls|https|quic> ca=<0|1> ck=<0|1> ins=<0|1> vc=<0|1> peer=<kind|absent> srvreq=<0|1>
+//   The process's SYSTEM trust store is the harness' own (c17pki sets SSL_CERT_FILE / SSL_CERT_DIR before crypto/x509
+//   first loads it): peer kinds sysroot / sysrootwrongname chain to it and not to the configured ca.
+//   case:   <id> role=<up|ls> proto=<tls|https|quic|h3(up only)> ca=<0|1> ck=<0|1> ins=<0|1> vc=<0|1> peer=<kind|absent> srvreq=<0|1>
 //   result: start=<ok|err> x=<ok|fail>       (role=up)
 //           start=<ok|err> served=<0|1>      (role=ls)
 
@@ -918,7 +920,7 @@ func tlsUpstreamCase(f map[string]string) string {
 		return "HARNESS-ERROR leaf " + err.Error()
 	}
 	uurl := proto + "://localhost:" + port
-	if proto == "https" {
+	if proto == "https" || proto == "h3" {
 		uurl += "/dns-query"
 	}
 	lname := fmt.Sprintf("@verif-c17-%d-%d", os.Getpid(), c17unixSeq.Add(1))
